@@ -154,6 +154,7 @@ type FnExec struct {
 	callResults      map[string]specVar
 	callArgs         map[string][]specVar
 	calledCell       map[string]int
+	calledWith       []*calledWithGhost
 	ensSkipped       map[*Clause]string
 	ensOK            map[*Clause]bool
 	guardOrd         map[ssa.Instruction]int
@@ -970,6 +971,54 @@ func (e *FnExec) initCalledGhosts(st *State) {
 		texts = append(texts, c.Text)
 	}
 	for _, t := range texts {
+		rest := t
+		for {
+			i := strings.Index(rest, "calledwith(")
+			if i < 0 {
+				break
+			}
+			rest = rest[i+len("calledwith("):]
+			// calledwith(name, k, expr): split at the first two commas, expr runs to the matching paren
+			depth, end := 1, -1
+			for j := 0; j < len(rest); j++ {
+				if rest[j] == '(' {
+					depth++
+				} else if rest[j] == ')' {
+					depth--
+					if depth == 0 {
+						end = j
+						break
+					}
+				}
+			}
+			if end < 0 {
+				break
+			}
+			parts := strings.SplitN(rest[:end], ",", 3)
+			if len(parts) != 3 {
+				continue
+			}
+			name := strings.TrimSpace(parts[0])
+			var k int
+			fmt.Sscan(strings.TrimSpace(parts[1]), &k)
+			expr := strings.TrimSpace(parts[2])
+			key := fmt.Sprintf("%s|%d|%s", name, k, strings.Join(strings.Fields(expr), ""))
+			dup := false
+			for _, g := range e.calledWith {
+				if g.key == key {
+					dup = true
+				}
+			}
+			if !dup {
+				e.ncell++
+				e.cellType[e.ncell] = types.Typ[types.Bool]
+				e.cellName[e.ncell] = "calledwith!" + name
+				st.cells[e.ncell] = False
+				e.calledWith = append(e.calledWith, &calledWithGhost{key: key, name: name, k: k, expr: expr, cell: e.ncell})
+			}
+		}
+	}
+	for _, t := range texts {
 		for {
 			i := strings.Index(t, "called(")
 			if i < 0 {
@@ -990,6 +1039,13 @@ func (e *FnExec) initCalledGhosts(st *State) {
 			}
 		}
 	}
+}
+
+// calledWithGhost: calledwith(name, k, expr) -- some call to `name` had its k-th argument equal to
+// expr (evaluated when that call happened).
+type calledWithGhost struct {
+	key, name, expr string
+	k, cell         int
 }
 
 type unsupported string
